@@ -42,6 +42,9 @@ def observe(fn, key, unicode, prefix):
     return "ok", list(out)
 
 
+OPS_VIA = ["gets", "gat", "gats", "touch", "gets_many", "set", "add", "append", "cas", "set_many", "delete_many", "incr"]
+
+
 def make_vias(unicode, prefix):
     """the four ways a key is validated; each returns the validated / transmitted key bytes"""
     from pymemcache.client.base import Client, PooledClient, check_key_helper
@@ -137,7 +140,51 @@ def make_vias(unicode, prefix):
             return data[len(b"delete "):-len(b" noreply\r\n")]
         return f
 
+    def via_op(client, op):
+        """any key-addressed operation: the key bytes of the command it sent (the companion key "L" of multi-key calls aside)"""
+        def f(key):
+            net.begin_call(1)
+            net.wire_log.clear()
+            from pymemcache.exceptions import MemcacheIllegalInputError
+            try:
+                if op == "gets":
+                    client.gets(key)
+                elif op in ("gat", "gats", "touch"):
+                    getattr(client, op)(key, expire=0)
+                elif op == "gets_many":
+                    client.gets_many([key, "L"])
+                elif op in ("set", "add", "append"):
+                    getattr(client, op)(key, b"v")
+                elif op == "cas":
+                    client.cas(key, b"v", b"1")
+                elif op == "set_many":
+                    client.set_many({key: b"v", "L": b"w"})
+                elif op == "delete_many":
+                    client.delete_many(["L", key])
+                elif op == "incr":
+                    client.incr(key, 1)
+            except MemcacheIllegalInputError:
+                raise
+            except Exception:   # noqa -- the server's answer to a key that was sent (a non-numeric value for incr, ...) is not the subject
+                if not net.sent_cmds:
+                    raise
+            keys = []
+            for c in net.sent_cmds:
+                keys += list(c.get("keys", []))
+                if "key" in c:
+                    keys.append(c["key"])
+            cand = [k for k in keys if k != pb + b"L"] or keys
+            if not cand:
+                raise RuntimeError("nothing sent and nothing raised")
+            return cand[0]
+        return f
+    opvias = {}
+    for sname, client in (("client", cl), ("pooled", pc), ("hash", hc), ("hash-ignore_exc", hci)):
+        for op in OPS_VIA:
+            opvias["%s-op-%s" % (sname, op)] = via_op(client, op)
+
     return {
+        **opvias,
         "helper": lambda k: check_key_helper(k, unicode, pb),
         "client": lambda k: cl.check_key(k, pb),
         "pooled": lambda k: pc.check_key(k),
@@ -198,6 +245,7 @@ def main(tier, rep):
             "client-get-ignore_exc", "pooled-get-ignore_exc", "hash-get-no-server", "hash-get-no-server-ignore_exc",
             "pooled-get_many-ignore_exc", "client-get_many-ignore_exc", "client-set-unreachable", "pooled-set-unreachable",
             "client-key-after-stats-argument", "hash-get_many-ignore_exc", "hash-get_many"]
+    VIAS += ["%s-op-%s" % (sname, op) for sname in ("client", "pooled", "hash", "hash-ignore_exc") for op in OPS_VIA]
     n = 0
     for row in table:
         cls = BYTE_CLASS if not row["isstr"] else CP_CLASS
